@@ -34,6 +34,40 @@ def run_worker(jobs):
     return res
 
 
+def oer_zero_width(rt, t, seen=()):
+    """Can a value of this type have an OER encoding of zero octets?"""
+    t0 = t
+    while t0['k'] == 'REF':
+        if t0['name'] in seen:
+            return False
+        seen = seen + (t0['name'],)
+        t0 = rt(t0)
+    k = t0['k']
+    if k == 'NULL':
+        return True
+    if k in ('OCTET STRING', 'STRING', 'BIT STRING'):
+        s = t0['size']
+        return s is not None and not s['ext'] and s['lo'] == 0 and s['hi'] == 0
+    if k in ('SEQUENCE', 'SET'):
+        return t0['ext'] is None and all(m['opt'] is None and oer_zero_width(rt, m['t'], seen) for m in t0['root'])
+    return False
+
+
+def oer_unbounded_array(rt, t, seen=()):
+    """Known finding C08 oer-zero-width-array: a SEQUENCE OF / SET OF whose elements may occupy no octets
+    makes the decoder loop 'quantity' times, and the quantity field is an arbitrary big integer."""
+    k = t['k']
+    if k == 'REF':
+        return False if t['name'] in seen else oer_unbounded_array(rt, rt(t), seen + (t['name'],))
+    if k in ('SEQUENCE OF', 'SET OF'):
+        return oer_zero_width(rt, t['elem']) or oer_unbounded_array(rt, t['elem'], seen)
+    if k in ('SEQUENCE', 'SET'):
+        return any(oer_unbounded_array(rt, m['t'], seen) for m in G.all_members(t))
+    if k == 'CHOICE':
+        return any(oer_unbounded_array(rt, m['t'], seen) for m in t['root'] + (t['ext'] or []))
+    return False
+
+
 def hostile_inputs(ctx, c, enc, others, n):
     rng = ctx.rng
     out = []
@@ -77,6 +111,9 @@ def run(ctx):
         cases = CC.gen_cases(ctx, opts, n, 2, numeric_choices=(False,))
         encs = []
         for c in cases:
+            if codec == 'oer' and oer_unbounded_array(c.rt, c.t):
+                ctx.count('hostile:oer:skipped-known-finding-region')
+                continue
             spec = lib.attempt(lib.compile_string, c.text, codec)
             if spec[0] != 'ok':
                 continue
